@@ -197,9 +197,18 @@ def make_genmap(rng, case):
     case["genmap"] = rows
 
 
+def add_decoy_read(case):
+    """whatshap refuses a BAM without any read; a read over the variant-free first 25 bases (variants start at >= 30)
+    of the first sample keeps 'no reads at all' cases runnable without adding any phase information"""
+    if not case["reads"]:
+        case["reads"].append({"name": "decoy", "start": 2, "cigar": [[0, 23]], "seq": case["seq"][2:25],
+                              "sample": case["samples"][0], "flag": 0, "mapq": 60})
+
+
 def write_case(case, d, prefix="in", phased_input=None):
     """writes FASTA, BAM, VCF (+ PED, + genetic map); returns dict of paths"""
     os.makedirs(d, exist_ok=True)
+    add_decoy_read(case)
     contigs = {case["contig"]: case["seq"]}
     fa, bam, vcf = (os.path.join(d, prefix + e) for e in (".fasta", ".bam", ".vcf"))
     sim.write_fasta(fa, contigs)
@@ -337,3 +346,21 @@ def structure_blocks(rng, n, style):
                 blocks.append([(b - 1, b)])
     rng.shuffle(blocks)
     return blocks
+
+
+def assert_overlay_in_use(overlay):
+    """guard against a silent fall-back to the installed package: the CLI started the way `sim.whatshap` starts it
+    must import whatshap from the overlay, and the overlay's Python sources must equal the working tree's"""
+    import subprocess, hashlib, glob
+    from harness import common, wsbuild
+    env = dict(os.environ, PYTHONPATH=overlay)
+    r = subprocess.run([sim.PY, "-c", "import whatshap, whatshap.core; print(whatshap.__file__); print(whatshap.core.__file__)"],
+                       env=env, capture_output=True, text=True)
+    lines = r.stdout.split()
+    if r.returncode != 0 or len(lines) != 2 or not all(os.path.realpath(x).startswith(os.path.realpath(overlay) + os.sep) for x in lines):
+        raise common.Infra(f"whatshap is not imported from the overlay {overlay}: {r.stdout} {r.stderr[-300:]}")
+    for p in glob.glob(os.path.join(wsbuild.REPO, "whatshap/**/*.py"), recursive=True):
+        rel = os.path.relpath(p, wsbuild.REPO)
+        q = os.path.join(overlay, rel)
+        if not os.path.exists(q) or open(p, "rb").read() != open(q, "rb").read():
+            raise common.Infra(f"overlay {overlay} is stale: {rel} differs from the working tree {wsbuild.REPO}")
